@@ -911,7 +911,12 @@ impl<'a> ArxmlParser<'a> {
                     let mut valid = false;
                     if let Some(endpos) = rem.find(';') {
                         let hextxt = &rem[3..endpos];
-                        if let Ok(hexval) = u32::from_str_radix(hextxt, 16) {
+                        if let Some(hexval) = hextxt
+                            .bytes()
+                            .all(|c| c.is_ascii_hexdigit())
+                            .then(|| u32::from_str_radix(hextxt, 16).ok())
+                            .flatten()
+                        {
                             if let Some(ch) = char::from_u32(hexval) {
                                 unescaped.push(ch);
                                 rem = &rem[endpos + 1..];
@@ -931,7 +936,12 @@ impl<'a> ArxmlParser<'a> {
                     let mut valid = false;
                     if let Some(endpos) = rem.find(';') {
                         let numtxt = &rem[2..endpos];
-                        if let Ok(val) = u32::from_str(numtxt) {
+                        if let Some(val) = numtxt
+                            .bytes()
+                            .all(|c| c.is_ascii_digit())
+                            .then(|| u32::from_str(numtxt).ok())
+                            .flatten()
+                        {
                             if let Some(ch) = char::from_u32(val) {
                                 unescaped.push(ch);
                                 rem = &rem[endpos + 1..];
